@@ -257,12 +257,52 @@ def hyp_shard(ctx, shard):
     hyp_search(ctx, "trees", strategy(), body, n, shard=shard)
 
 
+def large_trees():
+    """a few very wide / very large trees (thousands of pending siblings) with invalid nodes placed first, in the middle,
+    last, and after the wide node: size itself must not change what gets validated"""
+    out = []
+    for n in (4097, 6000, 20000):
+        for bad_at in ("last", "middle", "first", "after"):
+            kws = [{"n": "keyword", "c": "k%d" % i} for i in range(n)]
+            if bad_at == "last":
+                kws[-1] = {"n": "keyword"}
+            elif bad_at == "middle":
+                kws[n // 2] = {"n": "keyword", "a": {"zzForeign": "1"}}
+            elif bad_at == "first":
+                kws[0] = {"n": "keyword"}
+            ds = {"n": "dataset", "k": [{"n": "title", "c": "t"},
+                                         {"n": "creator", "k": [{"n": "organizationName", "c": "o"}]},
+                                         {"n": "keywordSet", "k": kws},
+                                         {"n": "contact", "k": [{"n": "organizationName", "c": "o"}]}]}
+            if bad_at == "after":
+                ds["k"][3] = {"n": "contact", "k": [{"n": "individualName"}]}
+            out.append(({"size": n, "invalid": bad_at}, ds))
+    return out
+
+
+def large_task(ctx, item):
+    label, sp = item
+    ctx.note(key=label, nontrivial=True, cls="large-tree:" + label["invalid"])
+    try:
+        check_tree(sp)
+    except Violation as v:
+        ctx.fail(v.bucket, {"large": label}, v.message + f" (tree with {label['size']} keywords, invalid node {label['invalid']})")
+
+
 def run(ctx):
     ctx.pmap(hyp_shard, range(16))
+    trees = large_trees()
+    ctx.pmap(large_task, trees if not ctx.quick else [t for t in trees if t[0]["size"] != 20000])
+    ctx.engine("large-trees", trees=len(trees))
 
 
 def replay(case):
     try:
+        if "large" in case:
+            for label, sp in large_trees():
+                if label == case["large"]:
+                    check_tree(sp)
+            return None
         check_case(case["tree"], case.get("fillers", []))
     except Violation as v:
         return f"{v.bucket}: {v.message}"
